@@ -22,7 +22,9 @@ API summary
     Method(name, ret, params, access, code=None, annotations=[])
     Class(name, access=1, super='Ljava/lang/Object;', interfaces=[], source=None, sfields=[], ifields=[],
           dmethods=[], vmethods=[], static_values=None|[EV...], annotations=[], refs=[])
-    DexFile(classes, extra_refs=[], version='035')
+    DexFile(classes, extra_refs=[], version='035', method_handles=[], call_sites=[])
+        method_handles: [(handle_type, ('f',cls,name,type)|('m',cls,name,ret,params))], call_sites: [[EV...]] (DEX 038+:
+        written as method_handle_item / call_site_id_item sections after class_defs, call_site_items as encoded arrays)
         .build(map_perm=None, section_order=None, pad=0) -> bytes
         after build(): .ix (Index: .s(str) .t(desc) .p(ret,params) .f(cls,name,type) .m(cls,name,ret,params)),
                        .class_order (indices into classes in class_defs order),
@@ -186,10 +188,15 @@ def min_width(kind, v):
 
 
 class DexFile:
-    def __init__(self, classes, extra_refs=(), version='035'):
+    def __init__(self, classes, extra_refs=(), version='035', method_handles=(), call_sites=()):
+        """method_handles: [(handle_type 0..8, ('f', cls, name, type) | ('m', cls, name, ret, params))]  (DEX 038+)
+        call_sites: [[EV...]] each a call_site_item (encoded_array): usually EV('method_handle', i), EV('string', name),
+        EV('method_type', (ret, params)), extra constant arguments...  (DEX 038+)"""
         self.classes = list(classes)
         self.extra_refs = list(extra_refs)
         self.version = version
+        self.method_handles = list(method_handles)
+        self.call_sites = [list(cs) for cs in call_sites]
 
     # ------------------------------------------------------------------ pools
     def _collect(self):
@@ -271,6 +278,11 @@ class DexFile:
                 addref(r)
         for r in self.extra_refs:
             addref(r)
+        for (_k, r) in self.method_handles:
+            addref(r)
+        for cs in self.call_sites:
+            for e in cs:
+                addev(e)
         S.update(T)
         ix = Index()
         self.strings = sorted(S, key=units)
@@ -375,6 +387,8 @@ class DexFile:
         o_fid = off; off += 8 * len(fields)
         o_mid = off; off += 8 * len(methods)
         o_cls = off; off += 32 * ncls
+        o_csi = off; off += 4 * len(self.call_sites)
+        o_mh = off; off += 8 * len(self.method_handles)
         data_off = off
 
         # type lists
@@ -470,6 +484,8 @@ class DexFile:
                     c = self.classes[ci]
                     if c.static_values is not None:
                         items.append((('encoded_array', ci), self.enc_array(c.static_values)))
+                for i, cs in enumerate(self.call_sites):
+                    items.append((('encoded_array', 'cs', i), self.enc_array(cs)))
             elif name == 'class_data':
                 for ci in self.class_order:
                     c = self.classes[ci]
@@ -502,7 +518,8 @@ class DexFile:
             sec_first = {}
             sec_count = {}
             blobs = []
-            present = 7 - [len(strings), len(types), len(protos), len(fields), len(methods), ncls].count(0)
+            present = 9 - [len(strings), len(types), len(protos), len(fields), len(methods), ncls,
+                           len(self.call_sites), len(self.method_handles)].count(0)
             for name in order:
                 items = section_items(name)
                 if not items:
@@ -545,7 +562,8 @@ class DexFile:
 
         entries = [(0, 1, 0)]
         for (t, n, o) in ((1, len(strings), o_sid), (2, len(types), o_tid), (3, len(protos), o_pid),
-                          (4, len(fields), o_fid), (5, len(methods), o_mid), (6, ncls, o_cls)):
+                          (4, len(fields), o_fid), (5, len(methods), o_mid), (6, ncls, o_cls),
+                          (7, len(self.call_sites), o_csi), (8, len(self.method_handles), o_mh)):
             if n:
                 entries.append((t, n, o))
         for name in order:
@@ -581,6 +599,11 @@ class DexFile:
                                ix.s(c.source) if c.source is not None else NO_INDEX,
                                offs.get(('annotations_directory', ci), 0), offs.get(('class_data', ci), 0),
                                offs.get(('encoded_array', ci), 0))
+        for i in range(len(self.call_sites)):
+            ids += struct.pack('<I', offs[('encoded_array', 'cs', i)])
+        for (k, r) in self.method_handles:
+            idx = ix.f(r[1], r[2], r[3]) if r[0] == 'f' else ix.m(r[1], r[2], r[3], r[4])
+            ids += struct.pack('<4H', k, 0, idx, 0)
         magic = b'dex\n' + self.version.encode() + b'\0'
         hdr = struct.pack('<8sI20sIIIIII', magic, 0, b'\0' * 20, total, 0x70, 0x12345678, 0, 0, offs[('map',)])
         hdr += struct.pack('<12I', len(strings), o_sid if strings else 0, len(types), o_tid if types else 0,
